@@ -334,6 +334,36 @@ func Census() []Goroutine {
 	return res
 }
 
+func bubbleOf(header string) string {
+	i := strings.Index(header, "synctest bubble ")
+	if i < 0 {
+		return ""
+	}
+	rest := header[i+len("synctest bubble "):]
+	j := strings.IndexAny(rest, "],")
+	if j < 0 {
+		return rest
+	}
+	return rest[:j]
+}
+
+// BubbleCensus returns the library-owned goroutines that live in the calling goroutine's synctest bubble
+// (runtime.Stack lists the caller first and tags every goroutine with its bubble).
+func BubbleCensus() []Goroutine {
+	gs := ParseStacks(AllStacks())
+	if len(gs) == 0 {
+		return nil
+	}
+	me := bubbleOf(gs[0].Header)
+	var res []Goroutine
+	for _, g := range gs[1:] {
+		if bubbleOf(g.Header) == me && g.LibraryOwned() {
+			res = append(res, g)
+		}
+	}
+	return res
+}
+
 // JSON is a helper for compact witnesses.
 func JSON(v any) string {
 	var b bytes.Buffer
